@@ -8,6 +8,7 @@ use crate::model::data::*;
 use crate::model::optable;
 use crate::model::pipeline::*;
 use crate::model::stream::*;
+use crate::model::valuepool;
 use garnish_lang_compiler::lex::TokenType;
 use garnish_lang_runtime::{SimpleRuntimeState, execute_current_instruction};
 use garnish_lang_traits::Instruction;
@@ -385,6 +386,7 @@ impl Check for C06Check {
         let r = optable::level_representatives().len() as u64;
         vec![
             Phase::exhaustive("reapply-loops", (REAPPLY_FAMILY.len()) as u64).with_chunk(1),
+            Phase::exhaustive("operators-on-value-pairs", valuepool::binary_program_count() + valuepool::unary_program_count()).with_chunk(2048),
             Phase::exhaustive("class-sequences", class_sequence_count(l)).with_chunk(8192),
             Phase::exhaustive("operator-triples", r * r * r * 2).with_chunk(4096),
             Phase::random("token-soups", tier.pick(80_000, 3_000_000), 120).with_min_tape(6).with_chunk(1024),
@@ -423,18 +425,25 @@ impl Check for C06Check {
                 ctx.nontrivial(fnv(template.as_bytes()));
             }
             (1, Input::Index(i)) => {
+                let src = if *i < valuepool::binary_program_count() { valuepool::binary_program(*i) } else { valuepool::unary_program(*i - valuepool::binary_program_count()) };
+                ctx.class("operator-on-values");
+                judge(&src, ctx, 2000);
+                // every such program exercises a data-dependent instruction: count it as non-trivial
+                ctx.nontrivial(fnv(src.as_bytes()));
+            }
+            (2, Input::Index(i)) => {
                 judge(&class_sequence(*i, tier.pick(4, 5)), ctx, 300);
             }
-            (2, Input::Index(i)) => match triple_source(*i) {
+            (3, Input::Index(i)) => match triple_source(*i) {
                 Some(s) => {
                     judge(&s, ctx, 300);
                 }
                 None => ctx.class("invalid-fixity-sequence"),
             },
-            (3, Input::Tape(t)) => {
+            (4, Input::Tape(t)) => {
                 judge(&token_soup(&mut Tape::new(t), 40), ctx, 1000);
             }
-            (4, Input::Tape(t)) => {
+            (5, Input::Tape(t)) => {
                 judge(&c02::random_source(t), ctx, 1000);
             }
             _ => {}
